@@ -23,6 +23,7 @@ class Ev:
     kind: str  # log | header | batch | result | error | end
     data: Any = None
     opt: str | None = None
+    step: int | None = None  # for a log emitted inside a stream step: the index of that step
 
     def key(self) -> tuple:
         return (self.kind, _freeze(self.data))
@@ -168,6 +169,10 @@ def expected(svc: Service, call: Call) -> list[Ev]:
             out += [e for e in step if e.kind == "log"]
             out.append(err)
             return out
+        if spec.kind == "exchange":  # lock-step on every transport: one input, one whole step, one batch
+            for e in step:
+                if e.kind == "log":
+                    e.step = pos
         out += step
         if finished:
             out.append(Ev("end"))
@@ -271,8 +276,12 @@ def compare(obs: list[tuple], exp: list[Ev], *, mode: str, min_batches: int = 0)
             why = f"extra log {len(el)}: {_short(ol[len(el)])}"
         if why is None:
             # logs the model places before an observed data event must have been delivered, and before it
+            # a stream step is a unit: when the client holds its data batch the server has run the whole step, so the logs the
+            # step emitted AFTER the batch exist too and must be delivered by the time the call ends (close / cancel drain
+            # them on the pipe family, HTTP delivers them with the turn) - not only the logs in front of observed data
+            nbatches = sum(1 for o in od if o[0] == "batch")
             for i in range(len(el)):
-                must = eb[i] < len(od) or (mode == "exact")
+                must = eb[i] < len(od) or (mode == "exact") or (el[i].step is not None and el[i].step < nbatches)
                 if i >= len(ol):
                     if must:
                         why = f"log {i} {_short(el[i].data)} was never delivered (expected before data event {eb[i]})"
